@@ -171,7 +171,19 @@ U_C20(zz) == {EqDecl([C0 |-> Class(DefaultOpts, <<U1("a"), IntF("_reserved", 2, 
                   C1 |-> Class(DefaultOpts, <<WithDesc(U1("n"), [kind |-> "autolen", of |-> "d"]), DataF("d", SzField("n"))>>)]),
           EqDecl([C0 |-> Class(DefaultOpts, <<U1("t"), RefSelF("v", EF("t"), <<[key |-> 0, alt |-> IntF("", 1, FALSE, "default")],
                                                                                [key |-> 1, alt |-> RefF("", "C1")]>>, "lambda", IntV(0)),
-                                              MvField(EmF("tail"), [kind |-> "aligned", arg |-> SzConst(4), ref |-> "innermost-pkt"])>>), C1 |-> Sub1])}
+                                              MvField(EmF("tail"), [kind |-> "aligned", arg |-> SzConst(4), ref |-> "innermost-pkt"])>>), C1 |-> Sub1]),
+          \* long values: a declared default written as a tuple of 70 elements, a list of 70, 100 bytes (printing and comparing
+          \* must not depend on how long or of which sequence type a value is)
+          EqDecl([C0 |-> Class(DefaultOpts, <<U1("t"), [RepCountF("r", U1("e"), SzConst(70), NoCond, 0) EXCEPT !.dflt = [i \in 1..70 |-> IntV(i % 3)]] @@ [tupledflt |-> TRUE],
+                                              WithDflt(DataF("d", SzMarker(<<0>>, FALSE, TRUE)), RepB(65, 100))>>)]),
+          EqDecl([C0 |-> Class(DefaultOpts, <<U1("t"), [RepCountF("r", U1("e"), SzConst(70), NoCond, 0) EXCEPT !.dflt = [i \in 1..70 |-> IntV(i % 3)]]>>)]),
+          \* a nested packet of ANOTHER class with the same field names and equal values (a request against a reply), one and
+          \* two levels down: not equal
+          EqDecl([C0 |-> Class(DefaultOpts, <<U1("t"), RefSelF("v", EF("t"), <<[key |-> 0, alt |-> RefF("", "C1")], [key |-> 1, alt |-> RefF("", "C2")]>>,
+                                                                       "lambda", SubV(0, 0))>>), C1 |-> Sub1, C2 |-> Sub1]),
+          EqDecl([C0 |-> Class(DefaultOpts, <<U1("a"), RefF("s", "C3")>>),
+                  C3 |-> Class(DefaultOpts, <<RefSelF("v", EC(0), <<[key |-> 0, alt |-> RefF("", "C1")], [key |-> 1, alt |-> RefF("", "C2")]>>, "lambda", SubV(0, 0))>>),
+                  C1 |-> Sub1, C2 |-> Sub1])}
 
 \* -------------------------------------------------------------------- C19
 SharedAlts2 == <<[key |-> 0, alt |-> IntF("", 2, FALSE, "default")], [key |-> 1, alt |-> DataF("", SzConst(1))]>>
